@@ -84,6 +84,8 @@ inductive Out where
 
 structure Conn where
   dpid : Option Nat := none
+  /-- `con.ofnexus` is `core.openflow` (set by the handshake's features-reply handler); before that it is the dummy nexus -/
+  nexus : Bool := false
   up : Bool := false
   frSent : Bool := false
   /-- `_barrier`: `none` = None, `some none` = request object created but its xid not drawn yet, `some (some x)` -/
@@ -117,10 +119,11 @@ def ev2 (kind : EvKind) (c arg : Nat) : List Out :=
 /-- `Connection.disconnect(defer_event = defer)` -/
 def disconnect (cfg : Cfg) (s : St) (c : Nat) (defer : Bool) : St × List Out :=
   let k := s.conns c
-  let s1 := if cfg.fixD3 && s.reg k.dpid != some c then s else s.setReg k.dpid none
+  -- `self.ofnexus._disconnect(self.dpid[, self])`: the dummy nexus only logs
+  let s1 := if !k.nexus || (cfg.fixD3 && s.reg k.dpid != some c) then s else s.setReg k.dpid none
   let raise := k.dpid.isSome && (!cfg.fixDown || k.up) && !k.downRaised && !defer
   (s1.setConn c { k with disc := true, downRaised := k.downRaised || raise },
-   if raise then ev2 .down c 0 else [])
+   if raise then (if k.nexus then [.ev ⟨true, .down, c, 0⟩] else []) ++ [.ev ⟨false, .down, c, 0⟩] else [])
 
 /-- `Connection.send(data)` for bytes that are already packed: `msgs` = (type, xid) of the messages in `data` -/
 def sendRaw (cfg : Cfg) (s : St) (c : Nat) (msgs : List (Nat × Nat)) : St × List Out :=
@@ -177,7 +180,7 @@ def dispatchHs (cfg : Cfg) (s : St) (c : Nat) (m : Msg) : St × List Out :=
       let s1 := ({ s with nextXid := x + 2 }).setConn c { k with frSent := true }
       sendRaw cfg s1 c [(OFPT_FEATURES_REQUEST, x), (OFPT_STATS_REQUEST, x + 1)]
   | .featuresReply d =>
-    let s1 := s.setConn c { k with dpid := some d, deferred := some [] }
+    let s1 := s.setConn c { k with dpid := some d, deferred := some [], nexus := true }
     let r1 := sendObj cfg s1 c OFPT_SET_CONFIG
     let r2 := sendObj cfg r1.1 c OFPT_FLOW_MOD
     let s3 := r2.1.setConn c { r2.1.conns c with barrier := some none }
@@ -259,5 +262,53 @@ def run (cfg : Cfg) (ops : List Op) : St × Trace := ops.foldl (stepT cfg) (init
 
 /-- all outputs of a history in chronological order -/
 def outs (tr : Trace) : List Out := tr.reverse.flatMap (·.2)
+
+/-! ### observers of a history (used only to state the properties; the model never reads them) -/
+
+/-- `op` is a features reply arriving on connection `c` (with which datapath id) -/
+def isFeat (op : Op) (c : Nat) : Option Nat :=
+  match op with
+  | .msg c' (.featuresReply d) => if c' = c then some d else none
+  | _ => none
+
+/-- `op` is a port-status message arriving on connection `c` (with which tag) -/
+def isPs (op : Op) (c : Nat) : Option Nat :=
+  match op with
+  | .msg c' (.portStatus n) => if c' = c then some n else none
+  | _ => none
+
+/-- the most recent features reply that arrived on `c`: its datapath id and what that step made observable -/
+def lastFeat : Trace → Nat → Option (Nat × List Out)
+  | [], _ => none
+  | (op, o) :: t, c =>
+    match isFeat op c with
+    | some d => some (d, o)
+    | none => lastFeat t c
+
+/-- tags of the port-status messages that arrived on `c` after its most recent features reply, in arrival order -/
+def psSince : Trace → Nat → List Nat
+  | [], _ => []
+  | (op, _) :: t, c =>
+    match isFeat op c with
+    | some _ => []
+    | none =>
+      match isPs op c with
+      | some n => psSince t c ++ [n]
+      | none => psSince t c
+
+def regOf (k : Option Nat) : Out → Option Nat
+  | .reg k' c => if k' = k then some c else none
+  | _ => none
+
+/-- the connection most recently registered under key `k` (`nexus._connect`), whether or not it still is -/
+def lastReg : Trace → Option Nat → Option Nat
+  | [], _ => none
+  | (_, o) :: t, k =>
+    match o.reverse.findSome? (regOf k) with
+    | some c => some c
+    | none => lastReg t k
+
+def upEv (b : Bool) (c : Nat) : Out := .ev ⟨b, .up, c, 0⟩
+def downEv (b : Bool) (c : Nat) : Out := .ev ⟨b, .down, c, 0⟩
 
 end Pox.Conn
